@@ -384,7 +384,8 @@ def solver_cases(rep, rng, n):
     import pysmt.typing as T
     BruteSolver, _ = classes()
     fails = ['assert_non_boolean', 'get_value_function', 'assert_foreign',
-             'is_sat_non_boolean', 'is_valid_non_boolean',
+             'is_sat_non_boolean', 'is_valid_non_boolean', 'pop_beyond',
+             'opt_backend_error_binary', 'opt_backend_error_linear',
              'opt_min_bool_term', 'opt_lexi_with_bool', 'opt_bad_strategy',
              'opt_boxed_with_bool', 'opt_pareto_with_bool',
              'opt_lexi_maxsmt', 'opt_min_string_term']
@@ -544,6 +545,19 @@ def _solver_fail(kind, solver, env, mgr):
         if kind == 'opt_pareto_with_bool':
             return outcome(lambda: list(solver.pareto_optimize(
                 [MinimizationGoal(ox), MinimizationGoal(ob)])))
+        if kind in ('opt_backend_error_binary', 'opt_backend_error_linear'):
+            # the back-end gives up in the middle of the search
+            from pysmt.optimization.goal import MaximizationGoal
+            solver.options.unknown_on = solver.n_solve_calls + 2
+
+            def go():
+                try:
+                    return solver.optimize(
+                        MaximizationGoal(ox),
+                        strategy=kind.rsplit('_', 1)[1])
+                finally:
+                    solver.options.unknown_on = None
+            return outcome(go)
         if kind == 'opt_lexi_maxsmt':
             return outcome(lambda: solver.lexicographic_optimize(
                 [MinimizationGoal(ox), MaxSMTGoal()]))
